@@ -1704,6 +1704,13 @@ class Interp:
         it = self.resolve_seq(self.eval(g.iter, fr))
         if hasattr(it, "as_symseq"):
             it = it.as_symseq(self)
+        if isinstance(it, Env) and len(n.generators) == 1 and kind in ("list", "dict") and not hasattr(it, "sym_iter"):
+            # a comprehension over an OPAQUE iterable (content owned by the environment, e.g. vars(module).values()): the result
+            # is an opaque collection - membership in it is a consistent unknown per queried value
+            key = ("comp", id(n))
+            if key not in it.data:
+                it.data[key] = Env(f"comp-over({it.path})"[:80])
+            return it.data[key]
         if not isinstance(it, SymSeq) or len(n.generators) != 1:
             return None
         if g.ifs:
